@@ -250,6 +250,6 @@ def run(ctx, rep, tier):
         rep.check("for j, character in enumerate(self.match_contents)" in conv or "enumerate(self.match_contents)" in conv, "C15.g", cls + ".convert", "one state per literal character, in order",
                   "literal match no longer walks the literal's characters in order")
     dm = ast.unparse(model.func("DirectMatch.convert"))
-    rep.check("DFTransition([character])" in dm, "C15.g", "DirectMatch.convert", "exact character on each step", "DirectMatch transition symbol changed")
+    rep.check(model.has("DirectMatch.convert", "DFTransition([character])"), "C15.g", "DirectMatch.convert", "exact character on each step", "DirectMatch transition symbol changed")
     cm = ast.unparse(model.func("CaseDirectMatch.convert"))
-    rep.check("DFTransition(self._create_casei_from(character))" in cm, "C15.g", "CaseDirectMatch.convert", "folded set on each step", "CaseDirectMatch transition symbols changed")
+    rep.check(model.has("CaseDirectMatch.convert", "DFTransition(self._create_casei_from(character))"), "C15.g", "CaseDirectMatch.convert", "folded set on each step", "CaseDirectMatch transition symbols changed")
